@@ -71,14 +71,22 @@ theorem Walk.append {I : Inst α} {ok : Nat → Bool} :
 
 /-! ### The setting -/
 
-/-- (H1), (H3), (H4), (H5) of the task: incident consistency, edge-local validity,
-state-independent strictly positive edge cost, heuristic a non-negative function of the vertex -/
-structure Uniform (I : Inst α) (ok : Nat → Bool) (c : Nat → α) (hv : Nat → α) : Prop where
+/-- (H1), (H3), (H4) of the task: incident consistency, edge-local validity, state-independent
+strictly positive edge cost.  (All that the destination-less search needs.) -/
+structure UniformCost (I : Inst α) (ok : Nat → Bool) (c : Nat → α) : Prop where
   incident_term : ∀ v e, e ∈ I.incident v → I.termV e = v
   valid_eq : ∀ e st le, I.valid e st le = .ok (ok e)
   trav_eq : ∀ e le st, ∃ ac tc st', I.trav e le st = .ok (ac, tc, st') ∧ ac + tc = c e
   cost_pos : ∀ e, 0 < c e
-  h_eq : ∀ v st, I.h v st = .ok (hv v)
+
+/-- (H5) the heuristic is a function of the vertex (used alone by the reachability theorems) -/
+def VertexH (I : Inst α) (hv : Nat → α) : Prop := ∀ v st, I.h v st = .ok (hv v)
+
+/-- (H1), (H3), (H4), (H5): `UniformCost` plus: the heuristic is a non-negative function of the
+vertex -/
+structure Uniform (I : Inst α) (ok : Nat → Bool) (c : Nat → α) (hv : Nat → α) : Prop
+    extends UniformCost I ok c where
+  h_eq : VertexH I hv
   h_nonneg : ∀ v, 0 ≤ hv v
 
 /-- (H6) the termination model never fires -/
@@ -250,8 +258,9 @@ def RStep (I : Inst α) (ok : Nat → Bool) (c H : Nat → α)
       g' = upd g (I.keyV e) (gt + c e) ∧
       q' = pushIncrease q (I.keyV e) (gt + c e + H (I.keyV e)))
 
-theorem relax_spec {I : Inst α} {ok : Nat → Bool} {c hv : Nat → α} (U : Uniform I ok c hv)
-    (hasT : Bool) (le : Option Nat) (st : List α) (s : SState α) (e : Nat) :
+theorem relax_spec {I : Inst α} {ok : Nat → Bool} {c hv : Nat → α} (U : UniformCost I ok c)
+    (hasT : Bool) (hh : hasT = true → VertexH I hv)
+    (le : Option Nat) (st : List α) (s : SState α) (e : Nat) :
     ∃ s', relax I hasT le st s e = .ok s' ∧
       RStep I ok c (Hf hasT hv) s.queue s.g e s'.queue s'.g := by
   obtain ⟨ac, tc, st', htr, hc⟩ := U.trav_eq e le st
@@ -279,7 +288,9 @@ theorem relax_spec {I : Inst α} {ok : Nat → Bool} {c hv : Nat → α} (U : Un
       | true =>
         have hh : (if hasT = true then I.h (I.keyV e) st else Except.ok (zero : α))
             = .ok (Hf hasT hv (I.keyV e)) := by
-          cases hasT <;> simp [Hf, U.h_eq]
+          cases hasT with
+          | false => simp [Hf]
+          | true => simp [Hf, hh rfl (I.keyV e) st]
         simp only [if_true, hh]
         exact ⟨_, rfl, Or.inr ⟨gt, hok, hg, himp, rfl, rfl⟩⟩
 
@@ -432,6 +443,175 @@ theorem RStep.term_label (hc : ∀ e, 0 < c e) (h : RStep I ok c H q g e q' g') 
     · exact upd_other _ _ hu
 
 end step
+
+/-! ### The `for` loop over the incident edges -/
+
+/-- effect of `relaxAll`: a chain of `RStep`s -/
+def RSteps (I : Inst α) (ok : Nat → Bool) (c H : Nat → α) :
+    List Nat → List (Nat × α) → (Nat → Option α) → List (Nat × α) → (Nat → Option α) → Prop
+  | [], q, g, q', g' => q' = q ∧ g' = g
+  | e :: es, q, g, q', g' =>
+    ∃ q1 g1, RStep I ok c H q g e q1 g1 ∧ RSteps I ok c H es q1 g1 q' g'
+
+/-- under `Uniform` the `for` loop never fails and is a chain of abstract relaxations -/
+theorem relaxAll_spec {I : Inst α} {ok : Nat → Bool} {c hv : Nat → α} (U : UniformCost I ok c)
+    (hasT : Bool) (hh : hasT = true → VertexH I hv) (le : Option Nat) (st : List α) :
+    ∀ (es : List Nat) (s : SState α), ∃ s', relaxAll I hasT le st es s = .ok s' ∧
+      RSteps I ok c (Hf hasT hv) es s.queue s.g s'.queue s'.g
+  | [], s => ⟨s, rfl, rfl, rfl⟩
+  | e :: es, s => by
+    obtain ⟨s1, h1, r1⟩ := relax_spec U hasT hh le st s e
+    obtain ⟨s', h2, r2⟩ := relaxAll_spec U hasT hh le st es s1
+    refine ⟨s', ?_, s1.queue, s1.g, r1, r2⟩
+    simp only [relaxAll, h1, h2]
+
+/-- everything the loop turn needs from the `for` loop run at vertex `v` with label `x` -/
+theorem RSteps.all {I : Inst α} {ok : Nat → Bool} {c H : Nat → α} {source : Nat}
+    (hc : ∀ e, 0 < c e) {v : Nat} {x : α} :
+    ∀ (es : List Nat) (q : List (Nat × α)) (g : Nat → Option α) (q' : List (Nat × α))
+      (g' : Nat → Option α),
+      (∀ e ∈ es, I.termV e = v ∧ e ∈ I.incident v) → Inv I ok c H source q g → g v = some x →
+      RSteps I ok c H es q g q' g' →
+      Inv I ok c H source q' g' ∧ g' v = some x ∧ LabelsLe g g' ∧
+      (∀ u, KAt I ok c q g u → KAt I ok c q' g' u) ∧
+      (∀ t, TQ t q g → TQ t q' g') ∧
+      (∀ e ∈ es, ok e = true → ∃ y, g' (I.keyV e) = some y ∧ y ≤ x + c e)
+  | [], q, g, q', g', _, hinv, hg, h => by
+    obtain ⟨rfl, rfl⟩ := h
+    exact ⟨hinv, hg, LabelsLe.refl _, fun _ h => h, fun _ h => h, fun e he => absurd he (by simp)⟩
+  | e :: es, q, g, q', g', hes, hinv, hg, h => by
+    obtain ⟨q1, g1, h1, hrest⟩ := h
+    obtain ⟨hterm, hinc⟩ := hes e (by simp)
+    have hinv1 : Inv I ok c H source q1 g1 := h1.inv (by rw [hterm]; exact hinc) hinv
+    have hg1 : g1 v = some x := by
+      have := h1.term_label hc
+      rw [hterm] at this
+      rw [this]; exact hg
+    obtain ⟨hinv', hg', hle', hk', ht', hest'⟩ :=
+      RSteps.all hc es q1 g1 q' g' (fun e' he' => hes e' (by simp [he'])) hinv1 hg1 hrest
+    refine ⟨hinv', hg', h1.labelsLe.trans hle', fun u hk => hk' u (h1.kAt hinv hk),
+      fun t ht => ht' t (h1.tq hinv ht), ?_⟩
+    intro e' he' hok'
+    rcases List.mem_cons.1 he' with rfl | he'
+    · obtain ⟨y, hy, hyle⟩ := h1.established (by rw [hterm]; exact hg) hok'
+      obtain ⟨y', hy', hyle'⟩ := hle' _ _ hy
+      exact ⟨y', hy', le_trans hyle' hyle⟩
+    · exact hest' e' he' hok'
+
+/-! ### The loop -/
+
+/-- the loop-head invariant: (S), (Q), (K) everywhere, and "target labelled → target queued" -/
+def Good (I : Inst α) (ok : Nat → Bool) (c H : Nat → α) (source : Nat) (target : Option Nat)
+    (q : List (Nat × α)) (g : Nat → Option α) : Prop :=
+  Inv I ok c H source q g ∧ (∀ u, KAt I ok c q g u) ∧ (∀ t, target = some t → TQ t q g)
+
+/-- one full loop turn (pop `v`, which is not the target, then relax all of `incident v`)
+re-establishes the loop-head invariant; in particular (K) now holds at `v` -/
+theorem turn_good {I : Inst α} {ok : Nat → Bool} {c H : Nat → α} {source : Nat}
+    {target : Option Nat} (hinc : ∀ v e, e ∈ I.incident v → I.termV e = v) (hc : ∀ e, 0 < c e)
+    {q q2 : List (Nat × α)} {g g2 : Nat → Option α} {v : Nat}
+    (hgood : Good I ok c H source target q g) (hpop : popOk q v = true)
+    (hvt : target ≠ some v)
+    (hsteps : RSteps I ok c H (I.incident v) (q.filter (fun p => !(p.1 == v))) g q2 g2) :
+    Good I ok c H source target q2 g2 := by
+  obtain ⟨hinv, hk, ht⟩ := hgood
+  obtain ⟨f, hvf, _⟩ := popOk_spec hpop
+  obtain ⟨x, hx, _⟩ := hinv.qval v f hvf
+  have hinv1 : Inv I ok c H source (q.filter (fun p => !(p.1 == v))) g := by
+    refine ⟨hinv.sound, hinv.src, ?_, keys_filter_nodup _ hinv.qnodup⟩
+    intro w f' hw
+    exact hinv.qval w f' ((mem_filter_ne _).1 hw).1
+  obtain ⟨hinv2, hg2, _, hk2, ht2, hest⟩ :=
+    RSteps.all hc (I.incident v) _ g q2 g2 (fun e he => ⟨hinc v e he, he⟩) hinv1 hx hsteps
+  refine ⟨hinv2, ?_, ?_⟩
+  · intro u
+    by_cases hu : u = v
+    · subst hu
+      intro x' hx' _ e he hok'
+      rw [hg2] at hx'
+      have : x = x' := by simpa using hx'
+      subst this
+      exact hest e he hok'
+    · apply hk2
+      intro x' hx' hclosed
+      exact hk u x' hx' (fun f' hf' => hclosed f' ((mem_filter_ne _).2 ⟨hf', hu⟩))
+  · intro t htt
+    apply ht2
+    intro x' hx'
+    obtain ⟨f', hf'⟩ := ht t htt x' hx'
+    have hne : t ≠ v := by
+      intro h; apply hvt; rw [htt, h]
+    exact ⟨f', (mem_filter_ne _).2 ⟨hf', hne⟩⟩
+
+/-- induction principle for `runLoop`: every way the loop can end, with the loop-head invariant
+in hand at that moment.  Errors other than the ones listed are passed to `herr`; the only way an
+error `noPath` can arise other than from the empty queue is the termination model returning it. -/
+theorem runLoop_ind {I : Inst α} {ok : Nat → Bool} {c hv : Nat → α} (U : UniformCost I ok c)
+    {source : Nat} {target : Option Nat} (hh : target.isSome = true → VertexH I hv) (Post : Except ErrKind (SState α) → Prop)
+    (hnp : ∀ (s : SState α) (t : Nat),
+      Good I ok c (Hf target.isSome hv) source target s.queue s.g → s.queue = [] →
+      target = some t → Post (.error .noPath))
+    (hdone : ∀ s : SState α, Good I ok c (Hf target.isSome hv) source target s.queue s.g →
+      s.queue = [] → target = none → Post (.ok s))
+    (hpop : ∀ (s : SState α) (t : Nat),
+      Good I ok c (Hf target.isSome hv) source target s.queue s.g →
+      target = some t → popOk s.queue t = true →
+      Post (.ok { s with queue := s.queue.filter (fun p => !(p.1 == t)) }))
+    (herr : ∀ k, (k = .noPath → ∃ n i, I.term n i = .error .noPath) → Post (.error k)) :
+    ∀ (sched : List Nat) (s : SState α),
+      Good I ok c (Hf target.isSome hv) source target s.queue s.g →
+      Post (runLoop I source target sched s) := by
+  intro sched
+  induction sched with
+  | nil =>
+    intro s hgood
+    unfold runLoop
+    cases hterm : I.term s.solSize s.iters with
+    | error k => exact herr k (fun hk => ⟨_, _, hk ▸ hterm⟩)
+    | ok u =>
+      simp only
+      by_cases hemp : s.queue.isEmpty = true
+      · have hq : s.queue = [] := List.isEmpty_iff.1 hemp
+        simp only [hemp, if_true]
+        cases htar : target with
+        | none => exact hdone s hgood hq htar
+        | some t => exact hnp s t hgood hq htar
+      · rw [if_neg hemp]
+        exact herr _ (by simp)
+  | cons v rest ih =>
+    intro s hgood
+    unfold runLoop
+    cases hterm : I.term s.solSize s.iters with
+    | error k => exact herr k (fun hk => ⟨_, _, hk ▸ hterm⟩)
+    | ok u =>
+      simp only
+      by_cases hemp : s.queue.isEmpty = true
+      · have hq : s.queue = [] := List.isEmpty_iff.1 hemp
+        simp only [hemp, if_true]
+        cases htar : target with
+        | none => exact hdone s hgood hq htar
+        | some t => exact hnp s t hgood hq htar
+      · rw [if_neg hemp]
+        by_cases hp : popOk s.queue v = true
+        · simp only [hp, Bool.not_true, Bool.false_eq_true, if_false]
+          by_cases htv : target = some v
+          · have hb : (target == some v) = true := by simp [htv]
+            simp only [hb, if_true]
+            exact hpop s v hgood htv hp
+          · have hb : (target == some v) = false := by simpa using htv
+            simp only [hb, Bool.false_eq_true, if_false]
+            split
+            · exact herr _ (by simp)
+            · rename_i lastEdge st hcur
+              obtain ⟨s2, h2, r2⟩ := relaxAll_spec U target.isSome hh lastEdge st (I.incident v)
+                { s with queue := s.queue.filter (fun p => !(p.1 == v)) }
+              rw [h2]
+              simp only
+              apply ih
+              exact turn_good U.incident_term U.cost_pos hgood hp htv r2
+        · have hp' : popOk s.queue v = false := by simpa using hp
+          simp only [hp', Bool.not_false, if_true]
+          exact herr _ (by simp)
 
 end SearchOpt
 end Compass
